@@ -203,7 +203,7 @@ DispOf(cfg, reg, out) == LET t == OutsOf(Reg(cfg, reg))[out].t IN
 
 ApplyCall(st, e) ==
     LET base == [st EXCEPT !.cur = [op |-> e.op, sc |-> e.sc, name |-> e.name, t |-> e.t, k |-> e.k, g |-> e.g,
-                                   failed |-> NONE, failedReg |-> NONE, ncl |-> 0, nclerr |-> 0,
+                                   failed |-> NONE, failedReg |-> NONE, ncl |-> 0, nclerr |-> 0, cancelled |-> FALSE,
                                    wasOpen |-> (IF e.op \in {"build"} THEN TRUE
                                                 ELSE IF e.op = "closeprov" THEN st.phase = "built"
                                                 ELSE IsOpen(st, ScopeOfCall(e.sc))),
@@ -287,6 +287,7 @@ Apply(st, e) ==
     ELSE IF e.ev = "close" THEN ApplyClose(st, e)
     ELSE IF e.ev = "ret"   THEN ApplyRet(st, e)
     ELSE IF e.ev = "inst"  THEN ApplyInst(st, e)
+    ELSE IF e.ev = "cancelbuild" /\ st.cur.op # NONE THEN [st EXCEPT !.cur = [@ EXCEPT !.cancelled = TRUE]]
     ELSE st
 
 (***************************************************************************)
@@ -426,7 +427,12 @@ GuardsRetBuild(st, e) ==
      G("only_cycle_gives_circular", {"C05"}, (Cyclic(cfg) /\ NDefects(cfg) = 1 /\ ~EagerFault(cfg)) => "circular" \in err, NONE),
      G("conflict_rejected", {"C07"}, (Conflict(cfg) /\ NDefects(cfg) = 1) => "lifetimeConflict" \in err, NONE),
      G("conflict_only_if_conflict", {"C07"}, "lifetimeConflict" \in err => Conflict(cfg), NONE),
-     G("buildable_accepted", {"C08", "C06"}, (Buildable(cfg) /\ ~EagerFault(cfg)) => ok, NONE),
+     G("buildable_accepted", {"C08", "C06"}, (Buildable(cfg) /\ ~EagerFault(cfg) /\ ~st.cur.cancelled) => ok, NONE),
+     \* the context given to BuildWithContext was cancelled by a constructor: whether another creation step
+     \* follows depends on the order, so both verdicts are allowed; a failure must say why
+     G("cancelled_build_says_so", {"C15"}, (st.cur.cancelled /\ ~ok /\ st.cur.failed = NONE /\ Buildable(cfg)) =>
+                                            {"canceled", "build"} \subseteq err, NONE),
+     G("only_cancelled_build_is_canceled", {"C15"}, "canceled" \in err => st.cur.cancelled, NONE),
      G("missing_rejected", {"C08"}, Missing(cfg) => ~ok, NONE),
      G("eager_failure_reported", {"C15"}, FailureReported(st, st.cur, err), NONE),
      G("failed_build_closes_all", {"C10"}, ~ok => AllClosed(st, {i \in InstIds(st) : st.inst[i].disp /\ st.inst[i].inv # 0}), NONE),
